@@ -311,10 +311,49 @@ func classify(history []Step, probe Step, base, got string) string {
 			}
 		}
 	}
+	if probe.Op == "U" && c09t.HasCustomUnmarshaler(pt) && mismatchPosOnly(base, got) {
+		return "KF-mismatch-position-clobbered-by-unmarshaler"
+	}
 	if probe.Op == "M" && c09t.HasPtrOnlyMarshaler(pt) && strings.HasPrefix(base, "ok:") && strings.HasPrefix(got, "ok:") {
 		return "KF-encoder-pv-first-compile"
 	}
 	return ""
+}
+
+// mismatchPosOnly: both results are *errors.MismatchTypeError for the same expected Go type with the same decoded
+// destination, and one of them lost the offending value kind ("with value  \"at index N") - i.e. they differ only in the
+// reported position / value kind of the mismatch.
+func mismatchPosOnly(a, b string) bool {
+	parse := func(r string) (typ, text, dump string, ok bool) {
+		if !strings.HasPrefix(r, "err:") {
+			return
+		}
+		i := strings.IndexByte(r, '=')
+		j := strings.LastIndexByte(r, ':')
+		if i < 0 || j < i {
+			return
+		}
+		tb, err := hex.DecodeString(r[i+1 : j])
+		if err != nil {
+			return
+		}
+		return r[4:i], string(tb), r[j+1:], true
+	}
+	ta, xa, da, oka := parse(a)
+	tb, xb, db, okb := parse(b)
+	if !oka || !okb || ta != "*errors.MismatchTypeError" || tb != ta || da != db {
+		return false
+	}
+	head := func(x string) string {
+		if k := strings.Index(x, " with value"); k > 0 {
+			return x[:k]
+		}
+		return ""
+	}
+	if head(xa) == "" || head(xa) != head(xb) {
+		return false
+	}
+	return strings.Contains(xa, "with value  \"at index") || strings.Contains(xb, "with value  \"at index")
 }
 
 type divergence struct {
